@@ -270,7 +270,8 @@ class Layout:
     def comment(self):
         r = self.r
         if r.chance(1, 2):
-            body = r.choice(["", " c ", " struct x { int a; }; ", "*", " // ", "é ☃ ", " int x; ", "\n%", "\n% #include <x.h> ", " #define X 1\n# "])
+            body = r.choice(["", " c ", " struct x { int a; }; ", "*", " // ", "é ☃ ", " int x; ", "\n%", "\n% #include <x.h> ", " #define X 1\n# ",
+                             " old layout: /* kind, name ", "/*", " /* /* "])
             return "/*" + body + "*/"
         return "//" + r.choice(["", " c", " case 1: void;", "/* open", " é", "% x", "*/"]) + self.nl
 
